@@ -7,7 +7,7 @@ import z3
 from .engine import (Interp, Ctx, Agg, Cell, Ref, Str, EnvFn, Coroutine, Opaque, explore, run_single, run_threads, Unsupported, Panic, Deadlock, Infeasible,
                      is_conc, is_z3, simp, b_and, b_or, b_not, deref_all, str_eq, term_eq)
 from . import wrap
-from .vc_wrap import install_cache_hook, cache_parts, arg_tuple, tuple_eq, render_key
+from .vc_wrap import install_cache_hook, cache_parts, cache_stats, arg_tuple, tuple_eq, render_key
 from .vc_inv import Pred
 
 
@@ -84,8 +84,9 @@ def run(P, item):
                 else: ops.append(tuple(op))
             progs.append(ops)
         env = dict(pred=Pred(ctx))
-        pre_snap = None
         g0 = [c for c in log if c['method'] == 'get']
+        stats0 = cache_stats(P, g0[-1]['cache'], g0[-1]['ty']) if g0 else None
+        nlog0 = len(log)
         results = {}
         ctx.events.append(('conc-start',))
         nlock0 = len(ctx.events)
@@ -106,6 +107,8 @@ def run(P, item):
         if cs:
             store, queue, cfg = cache_parts(P, cs[-1]['cache'], cs[-1]['ty'], 0)
         snap = dict(keys=[k for k, v in store.items] if store is not None else [], vals=[v for k, v in store.items] if store is not None else [], queue=list(queue.items) if queue is not None else [])
+        if cs:
+            snap['stats1'] = cache_stats(P, cs[-1]['cache'], cs[-1]['ty']); snap['nlookups'] = len([c for c in log[nlog0:] if c['method'] == 'get'])
         # ---- sequential probe: every argument tuple used, then one fresh store
         probe = []
         if item.get('probe', True) and store is not None:
@@ -117,7 +120,9 @@ def run(P, item):
             store2, queue2, _ = cache_parts(P, cs[-1]['cache'], cs[-1]['ty'], 0)
             snap['keys2'] = [k for k, v in store2.items]; snap['queue2'] = list(queue2.items)
         locks = [e for e in ctx.events[nlock0:] if e[0] in ('lock', 'unlock')]
-        return dict(subj=subj, rs=rs, snap=snap, cfg=cfg, fills=fills, fresh=fresh, progs=progs, probe=probe, locks=locks, sched=list(ctx.sched_trace), stats=None, env=env)
+        stats1 = None
+        if g0 and snap.get('stats_after') is None: pass
+        return dict(stats0=stats0, nlookups=snap.get('nlookups'), stats1=snap.get('stats1'),subj=subj, rs=rs, snap=snap, cfg=cfg, fills=fills, fresh=fresh, progs=progs, probe=probe, locks=locks, sched=list(ctx.sched_trace), stats=None, env=env)
 
     outs, st = explore(run_path, seed=item.get('seed', 0), timeout_ms=20000, max_paths=item.get('max_paths', 6000))
     ndead = 0
@@ -185,6 +190,9 @@ def oracle(item, d, claims, classes, ctx):
     # stored values are values of the function
     if not it['result'] and not it['invalidate_on'] and snap['keys']:
         pass
+    if d.get('stats0') is not None and d.get('stats1') is not None and not any(op[0] == 'stats_reset' for p in item['progs'] for op in p):
+        h0, m0 = d['stats0']; h1, m1 = d['stats1']
+        add('C15', 'hits + misses grows by exactly the number of lookups performed, on every interleaving', simp((h1 + m1) - (h0 + m0) == d['nlookups']))
     if d['probe']:
         pr = d['probe'][0]
         add('C18', 'sequential use after the concurrent phase computes a fresh key exactly once', pr['execs'] == 1)
@@ -201,7 +209,7 @@ def conc_witness(ctx, model, item, d):
     return dict(subject=item['subject'], progs=item['progs'], nfill=item.get('nfill', 0), fills=[[ev(x) for x in t] for t in d['fills']], fresh=[[ev(x) for x in v] for k, v in d['fresh']],
                 fresh_keys=[list(k) for k, v in d['fresh']], pred=[(cn, render_key(k, ev), ev(b)) for cn, k, b in d['env']['pred'].memo], sched=d['sched'],
                 locks=[[str(x) for x in e] for e in d['locks']], keys=[render_key(k, ev) for k in d['snap']['keys']], queue=[render_key(k, ev) for k in d['snap']['queue']],
-                keys2=[render_key(k, ev) for k in d['snap'].get('keys2', [])], probe=[ev(x) for x in d['probe'][0]['args']] if d['probe'] else None)
+                keys2=[render_key(k, ev) for k in d['snap'].get('keys2', [])], nlookups=d.get('nlookups'), stats_delta=(ev((d['stats1'][0] + d['stats1'][1]) - (d['stats0'][0] + d['stats0'][1])) if d.get('stats0') is not None and d.get('stats1') is not None else None), probe=[ev(x) for x in d['probe'][0]['args']] if d['probe'] else None)
 
 
 def replay(f, w):
